@@ -775,6 +775,19 @@ def obj_equal(ctx, a, b, node):
     raise Unsupported('equality of heap objects %s/%s' % (oa.kind, ob.kind), node)
 
 
+def decided_equal(ctx, a, b, node):
+    """values_equal reduced to True / False when the simplifier can decide it"""
+    e = values_equal(ctx, a, b, node)
+    if isinstance(e, bool):
+        return e
+    e = z3.simplify(e)
+    if z3.is_true(e):
+        return True
+    if z3.is_false(e):
+        return False
+    return e
+
+
 def new_concrete_dict(ctx, pairs, node):
     if not pairs:
         return ctx.new_obj('pydict', meta={'pairs': []})
@@ -786,7 +799,7 @@ def pydict_method(ctx, interp, ref, o, name, args, kwargs, node):
     if name == 'get':
         default = args[1] if len(args) > 1 else NONE
         for k, v in pairs:
-            e = values_equal(ctx, k, args[0], node)
+            e = decided_equal(ctx, k, args[0], node)
             if e is True:
                 return v
             if e is not False:
@@ -800,7 +813,7 @@ def pydict_method(ctx, interp, ref, o, name, args, kwargs, node):
         return ctx.new_obj('list', meta={'items': [v for k, v in pairs]})
     if name == 'pop':
         for i, (k, v) in enumerate(pairs):
-            e = values_equal(ctx, k, args[0], node)
+            e = decided_equal(ctx, k, args[0], node)
             if e is True:
                 del pairs[i]
                 return v
@@ -812,12 +825,21 @@ def pydict_method(ctx, interp, ref, o, name, args, kwargs, node):
     if name == 'clear':
         o.meta['pairs'] = []
         return NONE
+    if name == 'setdefault':
+        for k, v in pairs:
+            e = decided_equal(ctx, k, args[0], node)
+            if e is True:
+                return v
+            if e is not False:
+                raise Unsupported('symbolic key in literal dict', node)
+        pairs.append((args[0], args[1] if len(args) > 1 else NONE))
+        return pairs[-1][1]
     raise Unsupported('dict method %s on literal dict' % name, node)
 
 
 def pydict_getitem(ctx, recv, o, key, node):
     for k, v in o.meta['pairs']:
-        e = values_equal(ctx, k, key, node)
+        e = decided_equal(ctx, k, key, node)
         if e is True:
             return v
         if e is not False:
@@ -827,7 +849,7 @@ def pydict_getitem(ctx, recv, o, key, node):
 
 def pydict_setitem(ctx, recv, o, key, v, node):
     for i, (k, _) in enumerate(o.meta['pairs']):
-        e = values_equal(ctx, k, key, node)
+        e = decided_equal(ctx, k, key, node)
         if e is True:
             o.meta['pairs'][i] = (k, v)
             return
@@ -1357,6 +1379,8 @@ def p_isinstance(ctx, interp, args, kwargs, node):
             res = res or isinstance(v, (VInt, VBool))
         elif n == 'builtins:bool':
             res = res or isinstance(v, VBool)
+        elif n == 'builtins:NoneType':
+            res = res or isinstance(v, VNone)
         elif n == 'builtins:tuple':
             res = res or isinstance(v, VTuple)
         elif n == 'builtins:dict':
@@ -1640,6 +1664,20 @@ def c_tuple(ctx, interp, args, kwargs, node):
 @ctor('builtins:dict')
 def c_dict(ctx, interp, args, kwargs, node):
     return p_dict(ctx, interp, args, kwargs, node)
+
+
+@ctor('builtins:type')
+def c_type(ctx, interp, args, kwargs, node):
+    v = args[0]
+    if isinstance(v, VNone):
+        return VClass('builtins:NoneType')
+    if isinstance(v, VBytes):
+        return VClass('builtins:bytes')
+    if isinstance(v, VStr):
+        return VClass('builtins:str')
+    if isinstance(v, (VInt,)):
+        return VClass('builtins:int')
+    raise Unsupported('type() of %r' % (v,), node)
 
 
 @ctor('builtins:bool')
